@@ -304,6 +304,14 @@ def run_seqx(binary, args, timeout=None, env_extra=None):
             return {"harness": os.path.basename(binary), "evaluations": 0, "distinct_nontrivial": 0, "states": 0, "transitions": 0,
                     "exhaustive": False, "violations_total": 1, "wall_s": 0, "samples": [], "crashed": True,
                     "violations": [{"signature": "crash: " + sig, "detail": err[-3000:], "count": 1}], "args": [str(a) for a in args]}
+        if p.returncode in (-11, -6, -7, -8, -4):
+            # the enumerator runs the real code in-process on legal operation sequences only: the code under test dying with a fatal
+            # signal is a finding (memory corrupted / invalid access), not a tooling failure; never seen on the unchanged tree
+            sig = f"the code under test died with signal {-p.returncode} inside the enumerator"
+            return {"harness": os.path.basename(binary), "evaluations": 0, "distinct_nontrivial": 0, "states": 0, "transitions": 0,
+                    "exhaustive": False, "violations_total": 1, "wall_s": 0, "samples": [], "crashed": True,
+                    "violations": [{"signature": "crash: " + sig, "detail": (p.stdout[-1500:] + err[-1500:]), "count": 1}],
+                    "args": [str(a) for a in args]}
         raise EngineError(f"{binary} {' '.join(map(str, args))}: no report (rc={p.returncode})\n{p.stdout[-1500:]}\n{p.stderr[-1500:]}")
     rep["args"] = [str(a) for a in args]
     rep["rc"] = p.returncode
